@@ -3,6 +3,10 @@
  (a) floor_/ceil_/round_{in,as}: unit-only and explicit-output-rep forms, Quantity and QuantityPoint   (vf/c15_round.py)
  (b) inverse_in / inverse_as: all SI-prefixed seconds x hertz pairs, accept/reject + trunc(K/x) + round trip (vf/c15_inv.py)
  (c) trig, arc*, hypot, fmod, remainder, abs, copysign, min, max, clamp, isnan: value and result unit     (vf/c15_math.py)
+
+Stage order: everything under the corner configurations / g++ first; thorough then adds the clang++ sweep builds and the four
+remaining probe configurations while the time budget lasts (skipped stages are listed in exhaustive_note).
+VERIF_C15_PARTS=a|b|c (development only) restricts a run to some sub-explorations.
 """
 import json
 import os
@@ -125,6 +129,8 @@ def check(run):
         "representable in the common rep (and exactly convertible to the std function's argument type); other value pairs are "
         "counted and, for integral reps, never executed; results of converted operands are compared as values (+0 == -0, "
         "NaN == NaN), results of unconverted operands bit for bit",
+        "min/max/clamp: NaN operands are outside the contract of std::min/std::max/std::clamp (strict weak ordering) and are "
+        "only counted; clamp additionally requires lo <= hi",
         "min/max/clamp of QuantityPoints: the statement does not fix which common point unit is chosen (see C10), so its "
         "magnitude is read out from the implementation and accepted iff every input's scale and origin offset are integers in "
         "it; values are then judged in that unit with the lowest input origin as zero",
